@@ -402,6 +402,9 @@ class Executor:
         self.entry = st.copy()
         for label, r in labelled(self.contract.requires, "req"):
             st.assume(self.spec(st, r))
+        if getattr(self.contract, "after_requires", None):
+            self.contract.after_requires(self, st)
+            self.entry.ghost = dict(st.ghost)
         self.entry_assumed = st.copy()
         self._exec_block(self.fx.node.body, st, self._finish_normal)
         return self.obligations
@@ -417,6 +420,8 @@ class Executor:
         c = self.contract
         if kind == "return":
             env = {"result": value}
+            for g, e in getattr(c, "ghost_at_exit", {}).items():
+                st.ghost[g] = self.spec(st, e, extra_env=env, old=self.entry)
             for label, e in labelled(c.ensures, "post"):
                 self.oblige(st, self.spec(st, e, extra_env=env, old=self.entry), f"ensures.{label}", "post")
             # a normal return must not happen where the contract says `raises`
@@ -581,12 +586,25 @@ class Executor:
         st.heap[base.root] = Root(root.length, z3.Store(root.content, base.idx(j), to_real(v)), root.dtype, root.owner)
 
     # -- loops -----------------------------------------------------------------------------
-    def _loop(self, n, st, k):
+    def _loop(self, n, st, k, start_override=None):
         ordinal = self.loop_ordinals[id(n)]
         spec = self.contract.loops.get(ordinal)
         if spec is None:
             raise Outside(f"loop {ordinal} (line {n.lineno}) has no invariant in the sidecar")
         kind = "for" if isinstance(n, ast.For) else "while"
+        if spec.peel and start_override is None:
+            # peel the first iteration: it is executed as straight-line code (exact semantics of the loop), the
+            # invariant then only has to describe iterations >= 1
+            if kind != "for" or not (isinstance(n.iter, ast.Call) and getattr(n.iter.func, "id", None) == "range" and len(n.iter.args) == 1):
+                raise Outside("peel is only implemented for `for v in range(n)`")
+            ev0 = Evaluator(self, st)
+            hi0 = ev0.eval(n.iter.args[0])
+
+            def first(s1):
+                s1.env[n.target.id] = 0
+                self._loop_body(n.body, s1, lambda s2: self._loop(n, s2, k, start_override=1))
+
+            return self._branch(st, Z(hi0) > 0, first, k)
         if spec.kind and spec.kind != kind:
             raise Outside(f"contract drift: loop {ordinal} is a {kind}, sidecar says {spec.kind}")
         lab = f"loop{ordinal}"
@@ -609,6 +627,8 @@ class Executor:
                 lo, hi, stp = args
             if not (isinstance(stp, int) and stp > 0):
                 raise Outside("range step must be a positive literal")
+            if start_override is not None:
+                lo = start_override
             it = (n.target.id, lo, hi, stp)
             st.env[n.target.id] = lo
             st.env["__lo"], st.env["__hi"] = lo, hi
@@ -992,6 +1012,8 @@ class Evaluator:
                 return r
         if isinstance(a, Opaque) or isinstance(b, Opaque):
             raise Outside("arithmetic on opaque value")
+        if isinstance(op, (ast.BitAnd, ast.BitOr)) and is_bool(a) and is_bool(b):
+            return simp(z3.And(Zb(a), Zb(b)) if isinstance(op, ast.BitAnd) else z3.Or(Zb(a), Zb(b)))
         a, b = to_num(a), to_num(b)
         if concrete(a) and concrete(b) and isinstance(a, (int, Fraction)) and isinstance(b, (int, Fraction)):
             if isinstance(op, ast.Add):
@@ -1015,6 +1037,8 @@ class Evaluator:
                 return a << b
         za, zb = Z(a), Z(b)
         real = z3.is_real(za) or z3.is_real(zb)
+        if isinstance(op, (ast.BitAnd, ast.BitOr)) and z3.is_bool(za) and z3.is_bool(zb):
+            return simp(z3.And(za, zb) if isinstance(op, ast.BitAnd) else z3.Or(za, zb))
         if isinstance(op, ast.Add):
             return simp((to_real(za) + to_real(zb)) if real else za + zb)
         if isinstance(op, ast.Sub):
